@@ -6,7 +6,7 @@
    every choice of these parameters. *)
 From Coq Require Import Permutation.
 From TL Require Import Lib.Base Lib.GenTypes Gen.OrchHistGen Model.OrchHist Model.OrchHistRun
-     Proofs.OrchHistBase Proofs.OrchHistMain.
+     Proofs.OrchHistBase Proofs.OrchHistMain Model.OrchConsts Proofs.OrchConsts.
 
 (* 1. History independence.  For every quirk vector with the four remaining state flags off (bare lint_file evidence, ignore-parser reuse, and the two
       sticky configurations of DRYRule and FilePlacementRule) (the DRY storage is reset by finalize() since fix 8b82489: read from the source, no flag needed), every initial file system and
@@ -93,6 +93,44 @@ Theorem C08_lint_ops_preserve_fs :
   snd (fst (step V perfile perfile_fp rep_blocks rep_consts rep_st hard_excl ignored ign_path cfg_path in_dir q (st, fs) o)) = fs.
 Proof. exact lint_ops_preserve_fs. Qed.
 Print Assumptions C08_lint_ops_preserve_fs.
+
+(* 6. The duplicate-constant report (find_constant_groups: exact groups, then a union-find over every pair of names that
+      match - equal, or near-equal by words / edit distance) puts two names into one group exactly when they are connected
+      in the match graph, for every list of names, every symmetric match predicate and either direction of union
+      (Model/OrchConsts.v transcribes the source statement by statement; its shape and the direction of union are
+      regenerated on every run); so the partition into groups does not depend on the order in which the files, hence
+      the names, reach the rule - chains A~B~C with A not near C included. *)
+Theorem C08_constant_groups_are_match_components :
+  forall m names dir, (forall a b, m a b = m b a) ->
+  forall a b, In a names -> In b names ->
+  (uf_find (uf_run dir m names) a = uf_find (uf_run dir m names) b <-> conn m names a b).
+Proof. exact same_root_iff_connected. Qed.
+Print Assumptions C08_constant_groups_are_match_components.
+
+Theorem C08_constant_grouping_order_independent :
+  forall dir dir' m names names',
+  (forall a b, m a b = m b a) -> Permutation names names' ->
+  forall a b, In a names -> In b names ->
+  (uf_find (uf_run dir m names) a = uf_find (uf_run dir m names) b
+   <-> uf_find (uf_run dir' m names') a = uf_find (uf_run dir' m names') b).
+Proof. exact grouping_order_independent. Qed.
+Print Assumptions C08_constant_grouping_order_independent.
+
+(* ... and the group reported under a root consists of exactly the names with that root, in the order of the names
+   (_build_merged_groups; gfind = first group with that key, nonempty l = None for [] and Some l otherwise) *)
+Theorem C08_constant_group_members :
+  forall dir m names r,
+  gfind r (merged_groups dir m names) = nonempty (filter (fun n => uf_find (uf_run dir m names) n =? r) names).
+Proof. exact merged_group_members. Qed.
+Print Assumptions C08_constant_group_members.
+
+(* non-vacuity: the chain 0 ~ 1 ~ 2 (0 not near 2) with the middle name first, last, and in between: one group of three in
+   every order (the root and the member order differ, the partition does not); name 3 stays alone *)
+Example C08_constant_chain_grouped_in_every_order :
+  const_groups (tbl_match [(0, 1); (1, 2)]) [1; 0; 2; 3] = [(2, [1; 0; 2]); (3, [3])]
+  /\ const_groups (tbl_match [(0, 1); (1, 2)]) [0; 2; 3; 1] = [(1, [0; 2; 1]); (3, [3])]
+  /\ const_groups (tbl_match [(0, 1); (1, 2)]) [3; 0; 1; 2] = [(3, [3]); (2, [0; 1; 2])].
+Proof. vm_compute. repeat split; reflexivity. Qed.
 
 (* non-vacuity: a history with edits and deletions whose calls report cross-file findings (symbolic rule instance) *)
 Definition ex_dirs : list (nat * list nat) := [(0, [0; 1; 2; 8; 9]); (1, [2])].
